@@ -1032,6 +1032,8 @@ func (ts *TermStore) body(t *Term) string {
 			return bin("tmod")
 		}
 		return bin("bvurem")
+	case "emod":
+		return bin("mod")
 	case "band":
 		return bin("bvand")
 	case "bor":
